@@ -480,3 +480,265 @@ theorem peekBits_buf (r : BitsReader) (n : Nat) : (r.peekBits n).1.buf = r.buf :
 
 end BitsReader
 end Stef
+
+namespace Stef
+namespace BitsReader
+
+theorem window_concat (buf : Bytes) (pos a b : Nat) (hab : a + b ≤ 64) :
+    window buf pos (a + b) = (window buf pos a <<< b) ||| window buf (pos + a) b := by
+  apply BitVec.eq_of_getLsbD_eq
+  intro j hj
+  rw [BitVec.getLsbD_or, BitVec.getLsbD_shiftLeft, window_getLsbD _ _ _ _ hj, window_getLsbD _ _ _ _ hj]
+  by_cases hjb : j < b
+  · have h1 : j < a + b := by omega
+    have e : pos + (a + b - 1 - j) = pos + a + (b - 1 - j) := by omega
+    simp [hjb, h1, hj, e]
+  · have hge : b ≤ j := by omega
+    have hjb' : (j - b < 64) := by omega
+    rw [window_getLsbD _ _ _ _ hjb']
+    by_cases h1 : j < a + b
+    · have h2 : j - b < a := by omega
+      have e : pos + (a + b - 1 - j) = pos + (a - 1 - (j - b)) := by omega
+      simp [hjb, h1, h2, hj, e]
+    · have h2 : ¬ j - b < a := by omega
+      simp [hjb, h1, h2]
+
+theorem readBits_eof_sticky (r : BitsReader) (n : Nat) (h : r.eof = true) : (r.readBits n).1.eof = true := by
+  unfold readBits
+  split
+  · simp only [consume_eof]; exact peekBits_eof_sticky r n h
+  · unfold readBitsMoreThan56
+    simp only [consume_eof]
+    apply peekBits_eof_sticky
+    rw [consume_eof]
+    exact peekBits_eof_sticky r 56 h
+
+theorem readBits_buf (r : BitsReader) (n : Nat) : (r.readBits n).1.buf = r.buf := by
+  unfold readBits
+  split
+  · simp only [consume_buf, peekBits_buf]
+  · unfold readBitsMoreThan56
+    simp only [consume_buf, peekBits_buf]
+
+/-- under the invariant, a PeekBits that flags EOF asked for bits beyond the end of the buffer -/
+theorem peek_eof_past_end (r : BitsReader) (pos n : Nat) (hI : RInv r pos) (hn : n ≤ 56)
+    (h : (r.peekBits n).1.eof = true) : 8 * r.buf.length < pos + n := by
+  obtain ⟨hlen, hav⟩ := (peekBits_spec r pos n hI hn).2.2 h
+  rcases hI.posn with ⟨_, hp2, hp3, _⟩ | ⟨_, _, hp3, _⟩ <;> omega
+
+/-- **ReadBits**, any width up to 64, from a state in which `pos` bits were consumed: if EOF is not
+    flagged the value is exactly the next `n` bits of the zero-padded buffer and `pos + n` bits are
+    consumed; if it is flagged, the read went beyond the end of the buffer. -/
+theorem readBits_spec (r : BitsReader) (pos n : Nat) (hI : RInv r pos) (hn : n ≤ 64) :
+    ((r.readBits n).1.eof = false → RInv (r.readBits n).1 (pos + n) ∧ (r.readBits n).2 = window r.buf pos n) ∧
+    ((r.readBits n).1.eof = true → 8 * r.buf.length < pos + n) := by
+  unfold readBits
+  by_cases h56 : n ≤ 56
+  · simp only [h56, ↓reduceIte, consume_eof]
+    obtain ⟨hb, hok, _⟩ := peekBits_spec r pos n hI h56
+    refine ⟨fun he => ?_, fun he => peek_eof_past_end r pos n hI h56 he⟩
+    obtain ⟨hR, hav, hv⟩ := hok he
+    exact ⟨consume_spec _ pos n hR hav, hv⟩
+  · simp only [h56, ↓reduceIte]
+    unfold readBitsMoreThan56
+    simp only [consume_eof]
+    obtain ⟨hb1, hok1, _⟩ := peekBits_spec r pos 56 hI (Nat.le_refl _)
+    by_cases he1 : (r.peekBits 56).1.eof = true
+    · -- the first peek already ran out: EOF is sticky
+      have hpast := peek_eof_past_end r pos 56 hI (Nat.le_refl _) he1
+      have hst : ((((r.peekBits 56).1.consume (if (r.peekBits 56).1.availBitCount > 56 then 56 else (r.peekBits 56).1.availBitCount)).peekBits
+          (n - (if (r.peekBits 56).1.availBitCount > 56 then 56 else (r.peekBits 56).1.availBitCount))).1.eof = true) := by
+        apply peekBits_eof_sticky; rw [consume_eof]; exact he1
+      refine ⟨fun he => ?_, fun _ => by omega⟩
+      rw [hst] at he; cases he
+    · have he1' : (r.peekBits 56).1.eof = false := by
+        cases h : (r.peekBits 56).1.eof with
+        | true => exact absurd h he1
+        | false => rfl
+      obtain ⟨hR1, hav1, hv1⟩ := hok1 he1'
+      have htc : (if (r.peekBits 56).1.availBitCount > 56 then 56 else (r.peekBits 56).1.availBitCount) = 56 := by
+        split <;> omega
+      rw [htc]
+      have hR2 := consume_spec _ pos 56 hR1 hav1
+      have hn2 : n - 56 ≤ 56 := by omega
+      obtain ⟨hb3, hok3, _⟩ := peekBits_spec _ (pos + 56) (n - 56) hR2 hn2
+      refine ⟨fun he => ?_, fun he => ?_⟩
+      · obtain ⟨hR3, hav3, hv3⟩ := hok3 he
+        have hc := consume_spec _ (pos + 56) (n - 56) hR3 hav3
+        have e : pos + 56 + (n - 56) = pos + n := by omega
+        rw [e] at hc
+        refine ⟨hc, ?_⟩
+        simp only [consume_buf] at hv3
+        rw [hb1] at hv3
+        rw [hv1, hv3]
+        have := window_concat r.buf pos 56 (n - 56) (by omega)
+        have e2 : 56 + (n - 56) = n := by omega
+        rw [e2] at this
+        exact this.symm
+      · have := peek_eof_past_end _ (pos + 56) (n - 56) hR2 hn2 he
+        simp only [consume_buf] at this
+        rw [hb1] at this
+        omega
+
+end BitsReader
+end Stef
+
+namespace Stef
+namespace BitsReader
+
+/-- ReadBit is ReadBits(1) (its fast path is the inlined fast path of PeekBits + Consume). -/
+theorem readBit_eq_readBits (r : BitsReader) : r.readBit = r.readBits 1 := by
+  unfold readBit readBits
+  simp only [show (1 : Nat) ≤ 56 by omega, ↓reduceIte]
+  by_cases h : r.availBitCount > 0
+  · have h1 : 1 ≤ r.availBitCount := h
+    simp only [h, ↓reduceIte, peekBits, h1, consume]
+  · simp only [h, ↓reduceIte]
+
+/-- a sequence of ReadBits calls -/
+def readMany : BitsReader → List Nat → BitsReader × List Word
+  | r, [] => (r, [])
+  | r, n :: ns =>
+    let (r1, v) := r.readBits n
+    let (r2, vs) := readMany r1 ns
+    (r2, v :: vs)
+
+/-- the values a correct reader returns for the widths `ns` starting at bit `pos` -/
+def windows (buf : Bytes) : Nat → List Nat → List Word
+  | _, [] => []
+  | pos, n :: ns => window buf pos n :: windows buf (pos + n) ns
+
+theorem readMany_eof_sticky (ns : List Nat) (r : BitsReader) (h : r.eof = true) :
+    (readMany r ns).1.eof = true := by
+  induction ns generalizing r with
+  | nil => exact h
+  | cons n ns ih =>
+    simp only [readMany]
+    exact ih _ (readBits_eof_sticky r n h)
+
+theorem readMany_buf (ns : List Nat) (r : BitsReader) : (readMany r ns).1.buf = r.buf := by
+  induction ns generalizing r with
+  | nil => rfl
+  | cons n ns ih => simp only [readMany]; rw [ih, readBits_buf]
+
+theorem readMany_spec (ns : List Nat) (r : BitsReader) (pos : Nat) (hI : RInv r pos) (hns : ∀ n ∈ ns, n ≤ 64) :
+    (pos + ns.sum ≤ 8 * r.buf.length →
+        (readMany r ns).1.err = false ∧ (readMany r ns).2 = windows r.buf pos ns ∧
+        RInv (readMany r ns).1 (pos + ns.sum)) ∧
+    (8 * r.buf.length < pos + ns.sum → (readMany r ns).1.err = true) := by
+  induction ns generalizing r pos with
+  | nil =>
+    simp only [readMany, List.sum_nil, Nat.add_zero, windows]
+    refine ⟨fun h => ⟨(err_iff r pos hI).2 h, trivial, hI⟩, fun h => ?_⟩
+    cases he : r.err with
+    | true => rfl
+    | false => have := (err_iff r pos hI).1 he; omega
+  | cons n ns ih =>
+    have hn : n ≤ 64 := hns n (by simp)
+    have hns' : ∀ m ∈ ns, m ≤ 64 := fun m hm => hns m (by simp [hm])
+    obtain ⟨hok, heof⟩ := readBits_spec r pos n hI hn
+    simp only [readMany, List.sum_cons, windows]
+    by_cases he : (r.readBits n).1.eof = true
+    · have hpast := heof he
+      have hst := readMany_eof_sticky ns _ he
+      refine ⟨fun h => by omega, fun _ => ?_⟩
+      unfold err; rw [hst]; rfl
+    · have he' : (r.readBits n).1.eof = false := by
+        cases h : (r.readBits n).1.eof with
+        | true => exact absurd h he
+        | false => rfl
+      obtain ⟨hR, hv⟩ := hok he'
+      have hb := readBits_buf r n
+      obtain ⟨ih1, ih2⟩ := ih (r.readBits n).1 (pos + n) hR hns'
+      rw [hb] at ih1 ih2
+      refine ⟨fun h => ?_, fun h => ?_⟩
+      · obtain ⟨a, b, c⟩ := ih1 (by omega)
+        refine ⟨a, by rw [b, hv], ?_⟩
+        have e : pos + n + ns.sum = pos + (n + ns.sum) := by omega
+        rw [e] at c; exact c
+      · exact ih2 (by omega)
+
+end BitsReader
+end Stef
+
+namespace Stef
+namespace BitsReader
+open Stef.Spec
+
+theorem byteBits_getD (b : Byte) (k : Nat) (hk : k < 8) : (byteBits b).getD k false = b.getMsbD k := by
+  unfold byteBits
+  rw [List.getD_eq_getElem?_getD, List.getElem?_map, List.getElem?_range hk]
+  rfl
+
+theorem getD_append_left' (l l' : Bits) (k : Nat) (h : k < l.length) : (l ++ l').getD k false = l.getD k false := by
+  simp [List.getD_eq_getElem?_getD, List.getElem?_append_left h]
+
+theorem getD_append_right' (l l' : Bits) (k : Nat) (h : l.length ≤ k) :
+    (l ++ l').getD k false = l'.getD (k - l.length) false := by
+  simp [List.getD_eq_getElem?_getD, List.getElem?_append_right h]
+
+theorem bitAt_eq_bytesBits (buf : Bytes) (k : Nat) : bitAt buf k = (bytesBits buf).getD k false := by
+  induction buf generalizing k with
+  | nil => simp [bitAt, bytesBits, BitVec.getMsbD]
+  | cons b bs ih =>
+    have hl : (byteBits b).length = 8 := by simp [byteBits]
+    by_cases hk : k < 8
+    · have e1 : k / 8 = 0 := by omega
+      have e2 : k % 8 = k := by omega
+      have hR : (bytesBits (b :: bs)).getD k false = b.getMsbD k := by
+        show (byteBits b ++ bytesBits bs).getD k false = _
+        rw [getD_append_left' _ _ _ (by omega), byteBits_getD b k hk]
+      rw [hR]
+      unfold bitAt
+      rw [e1, e2]
+      rfl
+    · have e1 : k / 8 = (k - 8) / 8 + 1 := by omega
+      have e2 : k % 8 = (k - 8) % 8 := by omega
+      have hR : (bytesBits (b :: bs)).getD k false = (bytesBits bs).getD (k - 8) false := by
+        show (byteBits b ++ bytesBits bs).getD k false = _
+        rw [getD_append_right' _ _ _ (by omega), hl]
+      rw [hR, ← ih (k - 8)]
+      unfold bitAt
+      rw [e1, e2]
+      rfl
+
+theorem window_eq_take_drop (buf : Bytes) (pos n : Nat) (h : pos + n ≤ 8 * buf.length) :
+    window buf pos n = wordOfBits (((bytesBits buf).drop pos).take n) 0#64 := by
+  unfold window
+  congr 1
+  apply List.ext_getElem
+  · simp [bytesBits_length]; omega
+  · intro i h1 h2
+    simp only [List.getElem_map, List.getElem_range, List.getElem_take, List.getElem_drop]
+    rw [bitAt_eq_bytesBits, List.getD_eq_getElem?_getD, List.getElem?_eq_getElem]
+    rfl
+
+theorem spec_readBits_take (n : Nat) (bs : Bits) (h : n ≤ bs.length) :
+    Spec.readBits n bs = some (wordOfBits (bs.take n) 0#64, bs.drop n) := by
+  have := readBitsAux_append (bs.take n) (bs.drop n) 0#64
+  rw [List.take_append_drop, List.length_take, Nat.min_eq_left h] at this
+  exact this
+
+/-- **refinement**: on every buffer and at every bit position, the register-level Go reader
+    (`ReadBits`, any width up to 64, with its fast and slow refill paths and the 56 padding bits)
+    returns what the specification's bit reader returns on the buffer's bit list, as long as the
+    read stays inside the buffer. -/
+theorem readBits_refines_spec (r : BitsReader) (pos n : Nat) (hI : RInv r pos) (hn : n ≤ 64)
+    (hin : pos + n ≤ 8 * r.buf.length) :
+    Spec.readBits n ((bytesBits r.buf).drop pos) =
+      some ((r.readBits n).2, (bytesBits r.buf).drop (pos + n)) ∧
+    RInv (r.readBits n).1 (pos + n) ∧ (r.readBits n).1.err = false := by
+  obtain ⟨hok, heof⟩ := readBits_spec r pos n hI hn
+  have he : (r.readBits n).1.eof = false := by
+    cases h : (r.readBits n).1.eof with
+    | false => rfl
+    | true => have := heof h; omega
+  obtain ⟨hR, hv⟩ := hok he
+  refine ⟨?_, hR, ?_⟩
+  · rw [spec_readBits_take n _ (by simp [bytesBits_length]; omega), hv, window_eq_take_drop _ _ _ hin,
+      List.drop_drop]
+  · apply (err_iff _ _ hR).2
+    rw [readBits_buf]; exact hin
+
+end BitsReader
+end Stef
